@@ -24,6 +24,7 @@
   The YAML leg goes through the same parse function; its marshalling differs only in omitempty rules
   (documented in DESIGN.md) and is covered by the correspondence and the re-parse oracle.
 -/
+import GoPipeline.Gen.Methods
 import GoPipeline.Lemmas.RoundtripY
 namespace GoPipeline.Roundtrip
 open GoPipeline GoPipeline.Pipe GoPipeline.Parse GoPipeline.Marshal
@@ -141,6 +142,30 @@ theorem C09_struct_tags_as_modelled :
     (Gen.struct_Signature.map fun f => (f.name, f.key)) =
       [("Algorithm", "algorithm"), ("SignedFields", "signed_fields"), ("Value", "value")] ∧
     Gen.omitempty_Signature = [] := by decide
+
+/-- Where the encoders find the codec methods. yaml.v3 and encoding/json reach a pointer-receiver method only through
+    a pointer or an addressable value; a struct FIELD of value type `T` is encoded without it. The value-typed fields
+    with named types of the structs the model mirrors (`Matrix.Setup`, `Matrix.Adjustments`, `MatrixAdjustment.With`,
+    `CommandStep.Plugins`, `Pipeline.Steps`, `GroupStep.Steps`) have their `MarshalYAML` / `MarshalJSON`, if any, on a
+    value receiver — in the current source (regenerated `Gen/Methods`, `Gen/Structs`). A receiver changed to a pointer
+    (the YAML leg would silently write the raw map) breaks this obligation at build time. -/
+def valueFieldTypes : List String :=
+  (Gen.struct_Pipeline ++ Gen.struct_CommandStep ++ Gen.struct_GroupStep ++ Gen.struct_Matrix ++
+    Gen.struct_MatrixAdjustment ++ Gen.struct_Cache ++ Gen.struct_Signature).filterMap fun f =>
+    match f.ty with
+    | .named t => some t
+    | _ => none
+
+theorem C09_marshalers_of_value_fields_on_value_receivers :
+    valueFieldTypes = ["Steps", "Plugins", "Steps", "MatrixSetup", "MatrixAdjustments", "MatrixAdjustmentWith"] ∧
+    ∀ t ∈ valueFieldTypes, ∀ m ∈ ["MarshalYAML", "MarshalJSON"], (t, m, true) ∉ Gen.codecMethods := by decide
+
+/-- …and the types the YAML-leg model gives a `MarshalYAML` do have one (value or pointer receiver as the field requires). -/
+theorem C09_yaml_marshalers_present :
+    (("MatrixSetup", "MarshalYAML", false) ∈ Gen.codecMethods) ∧ (("MatrixAdjustmentWith", "MarshalYAML", false) ∈ Gen.codecMethods) ∧
+    (("Matrix", "MarshalYAML", true) ∈ Gen.codecMethods) ∧ (("Plugin", "MarshalYAML", true) ∈ Gen.codecMethods) ∧
+    (("WaitStep", "MarshalYAML", true) ∈ Gen.codecMethods) ∧ (("InputStep", "MarshalYAML", true) ∈ Gen.codecMethods) ∧
+    (("UnknownStep", "MarshalYAML", true) ∈ Gen.codecMethods) := by decide
 
 /-! Non-vacuity -/
 example : StableCommand { key := "k", label := "", command := "c", plugins := some [some { source := "docker#v1", config := .umap [] }],
